@@ -37,8 +37,47 @@ class Module(object):
         with warnings.catch_warnings():
             warnings.simplefilter("ignore")
             self.tree = ast.parse(self.src, filename=path)
+        strip_annotations(self.tree)
         set_parents(self.tree)
         self.relpath = "%s/%s.py" % (PKG, name)
+
+
+def strip_annotations(tree):
+    """Type annotations say nothing about behaviour: ``x: T = E`` is read as ``x = E``, a bare declaration ``x: T``
+    as nothing, parameter and return annotations are dropped (in place).  Returns the number of nodes changed."""
+    count = 0
+    for node in ast.walk(tree):
+        for fld in ("body", "orelse", "finalbody"):
+            blk = getattr(node, fld, None)
+            if not (isinstance(blk, list) and blk and isinstance(blk[0], ast.stmt)):
+                continue
+            k = 0
+            while k < len(blk):
+                st = blk[k]
+                if isinstance(st, ast.AnnAssign):
+                    count += 1
+                    if st.value is not None:
+                        blk[k] = ast.copy_location(ast.Assign(targets=[st.target], value=st.value), st)
+                    elif len(blk) > 1:
+                        del blk[k]
+                        continue
+                    else:
+                        blk[k] = ast.copy_location(ast.Pass(), st)
+                k += 1
+        if isinstance(node, (ast.FunctionDef, ast.AsyncFunctionDef)):
+            if node.returns is not None:
+                node.returns = None
+                count += 1
+            a = node.args
+            for arg in a.args + a.kwonlyargs + getattr(a, "posonlyargs", []) + [x for x in (a.vararg, a.kwarg) if x is not None]:
+                if arg.annotation is not None:
+                    arg.annotation = None
+                    count += 1
+        elif isinstance(node, ast.Lambda):
+            pass
+    if count:
+        ast.fix_missing_locations(tree)
+    return count
 
 
 def set_parents(tree):
